@@ -47,13 +47,15 @@ const (
 	aLagSnapshot
 	aJoinFlow
 	aStaleLeaderDance
+	aTransferLagging
+	aDoubleVoteDance
 	numActionKinds
 )
 
 var actionNames = [...]string{"tick", "tickAll", "step", "deliver", "deliverTo", "drop", "dup", "propose", "read",
 	"confChange", "apply", "snapshot", "crash", "restart", "stepCrash", "partition", "heal", "transfer", "status",
 	"rounds", "startJoin", "timeoutOff", "isolate",
-	"splitLeader", "healOne", "elect", "lagSnapshot", "joinFlow", "staleLeaderDance"}
+	"splitLeader", "healOne", "elect", "lagSnapshot", "joinFlow", "staleLeaderDance", "transferLagging", "doubleVoteDance"}
 
 type simAction struct {
 	Kind int
@@ -103,7 +105,7 @@ func baseWeights() map[int]int {
 		aTick: 6, aTickAll: 6, aStep: 10, aDeliver: 14, aDeliverTo: 6, aDrop: 3, aDup: 2, aPropose: 6, aRead: 3,
 		aConfChange: 2, aApply: 6, aSnapshot: 2, aCrash: 2, aRestart: 3, aStepCrash: 2, aPartition: 1, aHeal: 1,
 		aTransfer: 1, aStatus: 2, aRounds: 8, aStartJoin: 2, aTimeoutOff: 1, aIsolate: 1,
-		aSplitLeader: 3, aHealOne: 2, aElect: 2, aLagSnapshot: 1, aJoinFlow: 1, aStaleLeaderDance: 1,
+		aSplitLeader: 3, aHealOne: 2, aElect: 2, aLagSnapshot: 1, aJoinFlow: 1, aStaleLeaderDance: 1, aTransferLagging: 1, aDoubleVoteDance: 1,
 	}
 }
 
@@ -120,16 +122,17 @@ var famC02 = []string{"committed-entry-differs", "applied-state-differs", "appli
 	"committed-entry-overwritten", "committed-entry-replaced", "log-matching-violated", "commit-regressed",
 	"persist-gap", "final-divergence", "out-of-date-snapshot-pushed", "recover-older-snapshot", "compact-failed",
 	"snapshot-content-missing"}
-var famC03 = []string{"two-leaders-one-term", "two-votes-one-term", "leader-misses-committed-entry", "vote-not-durable", "term-regressed"}
+var famC03 = []string{"campaign-with-unapplied-config-change", "two-leaders-one-term", "two-votes-one-term", "leader-misses-committed-entry", "vote-not-durable", "term-regressed"}
 var famC04 = []string{"vote-not-durable", "ack-not-durable", "term-not-durable", "recovered-term-lower", "recovered-vote-differs",
 	"acked-entry-lost", "persist-gap", "apply-before-persist", "fast-apply-of-unsaved"}
-var famC06 = []string{"stale-read-index", "read-released-by-non-confirmed-leader"}
-var famC07 = []string{"cc-outcome-differs", "two-pending-config-changes", "removed-id-readmitted", "voters-empty"}
-var famC18 = []string{"non-voter-campaigns", "removed-replica-leads", "removed-leader-still-leader", "witness-left-witness-state",
+var famC06 = []string{"stale-read-index", "read-confirmed-without-voting-quorum"}
+var famC07 = []string{"cc-outcome-differs", "two-pending-config-changes", "removed-id-readmitted", "voters-empty",
+	"campaign-with-unapplied-config-change", "raft-membership-differs-from-applied"}
+var famC18 = []string{"read-confirmed-without-voting-quorum", "raft-membership-differs-from-applied", "non-voter-campaigns", "removed-replica-leads", "removed-leader-still-leader", "witness-left-witness-state",
 	"leader-without-voting-quorum", "commit-without-voting-quorum", "payload-sent-to-witness", "metadata-entry-on-non-witness"}
 var famC17 = []string{"stuck-quorum-needs-self-removed-replica", "no-leader-in-fair-phase", "proposal-stuck-in-fair-phase", "read-stuck-in-fair-phase",
 	"replica-not-caught-up", "config-change-stuck-in-fair-phase", "completed-without-quorum"}
-var famC01 = []string{"linearizability-violated", "stale-read-index", "write-applied-twice"}
+var famC01 = []string{"linearizability-violated", "stale-read-index", "write-applied-twice", "read-confirmed-without-voting-quorum"}
 
 func union(lists ...[]string) map[string]bool {
 	m := map[string]bool{}
@@ -683,6 +686,136 @@ func (s *sim) doAction(a simAction) {
 			s.campaignNow(b, 2)
 		}
 		for i := 0; i < 3; i++ {
+			s.round(false)
+		}
+	case aTransferLagging:
+		// leadership is transferred to a voter whose apply worker is stalled behind a
+		// committed membership change
+		l := s.leader()
+		if l == nil {
+			break
+		}
+		var voters []*simReplica
+		for _, r := range s.runningReps() {
+			if r.id != l.id && r.kind == kVoter {
+				if _, ok := l.mem.Addresses[r.id]; ok {
+					voters = append(voters, r)
+				}
+			}
+		}
+		if len(voters) == 0 {
+			break
+		}
+		f := voters[a.A%len(voters)]
+		s.flag("transfer-to-lagging-apply")
+		f.holdApply = true
+		// a membership change: add the next spare, or remove/re-add something harmless
+		var cc pb.ConfigChange
+		found := false
+		for _, id := range s.ids {
+			x := s.reps[id]
+			_, inV := l.mem.Addresses[id]
+			_, inN := l.mem.NonVotings[id]
+			_, inW := l.mem.Witnesses[id]
+			if !x.initial && !inV && !inN && !inW && !l.mem.Removed[id] {
+				cc = pb.ConfigChange{ReplicaID: id, Address: simAddr(id), ConfigChangeId: l.mem.CCID}
+				switch x.kind {
+				case kVoter:
+					cc.Type = pb.AddNode
+				case kNonVoting:
+					cc.Type = pb.AddNonVoting
+				case kWitness:
+					cc.Type = pb.AddWitness
+				}
+				found = true
+				break
+			}
+		}
+		if !found {
+			// remove some other voter (never the last two)
+			if len(l.mem.Addresses) >= 3 {
+				for _, r := range voters {
+					if r.id != f.id {
+						cc = pb.ConfigChange{Type: pb.RemoveNode, ReplicaID: r.id, ConfigChangeId: l.mem.CCID}
+						found = true
+						break
+					}
+				}
+			}
+		}
+		if found {
+			s.configChange(l, cc)
+		}
+		for i := 0; i < 2+a.B%3; i++ {
+			s.round(false)
+		}
+		if nl := s.leader(); nl != nil {
+			s.transfer(nl, f.id)
+		}
+		for i := 0; i < 2+a.C%3; i++ {
+			s.round(a.C%2 == 0)
+		}
+		f.holdApply = false
+	case aDoubleVoteDance:
+		// two candidates of the same term court one voter that crashes and restarts
+		// between their requests
+		var voters []*simReplica
+		for _, r := range s.runningReps() {
+			if r.kind == kVoter {
+				if _, ok := r.mem.Addresses[r.id]; ok {
+					voters = append(voters, r)
+				}
+			}
+		}
+		if len(voters) < 3 {
+			break
+		}
+		s.flag("double-vote-dance")
+		x, y, v := voters[a.A%len(voters)], voters[(a.A+1)%len(voters)], voters[(a.A+2)%len(voters)]
+		s.blocked = map[[2]uint64]bool{}
+		// nobody hears the current leader any more; x and y time out together
+		for _, r := range voters {
+			if r.raft().state == leader {
+				s.isolateBoth(r.id)
+			}
+		}
+		// optionally let v learn the new term first without voting (a higher-term message that is not a vote request)
+		for i := 0; i < 2*int(s.opts.electionRTT)+1; i++ {
+			if x.running() && x.raft().state != candidate {
+				s.tick(x)
+			}
+			if y.running() && y.raft().state != candidate {
+				s.tick(y)
+			}
+		}
+		s.step(x, 0)
+		s.step(y, 0)
+		// deliver only x's request to v, let v answer, then crash and restart v
+		var rest []simMsg
+		for _, m := range s.net {
+			if m.m.From == x.id && m.m.To == v.id {
+				s.deliverMsg(m.m)
+			} else {
+				rest = append(rest, m)
+			}
+		}
+		s.net = rest
+		s.step(v, 0)
+		if a.B%2 == 0 {
+			s.crash(v)
+			s.start(v)
+		}
+		// now everything else
+		for i := 0; i < 3; i++ {
+			s.round(false)
+		}
+		// whoever believes to be leader accepts a proposal
+		for _, r := range []*simReplica{x, y} {
+			if r.running() && r.raft().state == leader {
+				s.propose(r, fmt.Sprintf("k%d", a.C%3), 1)
+			}
+		}
+		for i := 0; i < 2; i++ {
 			s.round(false)
 		}
 	case aHealOne:
